@@ -154,14 +154,54 @@ func (m c02mon) Sig(s *sim.Sim, st *sim.Step) string {
 // findAcct returns the index of a ledger account whose stored record satisfies f (-1 if none),
 // skipping the indices in not.
 func findAcct(s *sim.Sim, f func(u *world.User) bool, not ...int) int {
-next:
-	for i, ac := range s.Accts {
+	excluded := func(i int) bool {
 		for _, n := range not {
 			if n == i {
-				continue next
+				return true
 			}
 		}
+		return false
+	}
+	for i, ac := range s.Accts {
+		if excluded(i) {
+			continue
+		}
 		if u := s.W.Store.Peek(ac.PID); u != nil && f(u) {
+			return i
+		}
+	}
+	// Nobody fits as seeded. Directed templates are built before the first request of a history, so the
+	// harness may still decide what the accounts look like: try the canonical account states (second
+	// factor none / TOTP / SMS / both, confirmed or not) on each candidate and seed the first that fits.
+	if len(s.Hist) != 0 {
+		return -1
+	}
+	for i, ac := range s.Accts {
+		u := s.W.Store.Peek(ac.PID)
+		if excluded(i) || u == nil || u.OAuth2UID != "" {
+			continue
+		}
+		for _, st := range [][3]bool{{false, false, true}, {true, false, true}, {false, true, true}, {true, true, true}, {false, false, false}, {true, false, false}, {false, true, false}} {
+			if (st[0] && !s.Cfg.Has2FA("totp")) || (st[1] && !s.Cfg.Has2FA("sms")) {
+				continue
+			}
+			h := u.Clone()
+			h.TOTPSecretKey, h.SMSPhone, h.Confirmed = "", "", st[2]
+			if st[0] {
+				h.TOTPSecretKey = "HYPOTHETICAL"
+			}
+			if st[1] {
+				h.SMSPhone = ac.Phone
+			}
+			if !f(h) {
+				continue
+			}
+			if (u.TOTPSecretKey != "") != st[0] || (u.SMSPhone != "") != st[1] {
+				s.SetTwoFA(i, st[0], st[1])
+			}
+			if u.Confirmed != st[2] {
+				s.SetConfirmed(i, st[2])
+			}
 			return i
 		}
 	}
